@@ -729,6 +729,69 @@ func etIndex(toks []string, prefix string) int {
 	return -1
 }
 
+// etTransitionChecksDst: in package executor/executorcmd, the function that calls the Transition
+// RPC compares the GetState() of the reply with the destination of the request (`x.Dst`, possibly
+// hoisted into a local) with == or != .  Found by what it does, not by its name.
+func etTransitionChecksDst() bool {
+	p := etLoadPkg("executor/executorcmd")
+	var keys []string
+	for k := range p.funcs {
+		keys = append(keys, k)
+	}
+	sort.Strings(keys)
+	found, checks := false, false
+	for _, k := range keys {
+		fd := p.funcs[k]
+		if fd.Body == nil {
+			continue
+		}
+		callsRPC := false
+		dstLocals := map[string]bool{}
+		ast.Inspect(fd.Body, func(x ast.Node) bool {
+			switch v := x.(type) {
+			case *ast.CallExpr:
+				if etSelName(v.Fun) == "Transition" && len(v.Args) >= 2 {
+					callsRPC = true
+				}
+			case *ast.AssignStmt:
+				if len(v.Lhs) == 1 && len(v.Rhs) == 1 && etSelName(v.Rhs[0]) == "Dst" {
+					if id, ok := v.Lhs[0].(*ast.Ident); ok {
+						dstLocals[id.Name] = true
+					}
+				}
+			}
+			return true
+		})
+		if !callsRPC {
+			continue
+		}
+		found = true
+		isDst := func(e ast.Expr) bool {
+			if etSelName(e) == "Dst" {
+				return true
+			}
+			id, ok := e.(*ast.Ident)
+			return ok && dstLocals[id.Name]
+		}
+		isGetState := func(e ast.Expr) bool {
+			c, ok := e.(*ast.CallExpr)
+			return ok && etSelName(c.Fun) == "GetState"
+		}
+		ast.Inspect(fd.Body, func(x ast.Node) bool {
+			if be, ok := x.(*ast.BinaryExpr); ok && (be.Op == token.EQL || be.Op == token.NEQ) {
+				if (isGetState(be.X) && isDst(be.Y)) || (isGetState(be.Y) && isDst(be.X)) {
+					checks = true
+				}
+			}
+			return true
+		})
+	}
+	if !found {
+		die("exectask: no function of executor/executorcmd performs the Transition RPC")
+	}
+	return checks
+}
+
 func trExecTask() string {
 	p := etLoadPkg("executor/executable")
 	msOf := func(name string) int64 {
@@ -857,6 +920,10 @@ func trExecTask() string {
 	etChain("ControllableTask.Launch", cl, "status:RUNNING", "wait", "take:nb", "status:var")
 	etChain("ControllableTask.Launch", cl, sl(pollMs))
 
+	// ---- executorcmd: doTransition (the function that performs the Transition RPC) reports success
+	// only if the state the device reports is the requested destination
+	checksDst := etTransitionChecksDst()
+
 	if os.Getenv("EXECTASK_DUMP") != "" {
 		for _, x := range []struct {
 			n string
@@ -879,5 +946,6 @@ func trExecTask() string {
 	fmt.Fprintf(&b, "Definition et_running_delay_ms : N := %d.    (* time.AfterFunc delay of TASK_RUNNING in doLaunch *)\n", runMs)
 	fmt.Fprintf(&b, "Definition et_pending_cap : N := %d.           (* cap(pendingFinalTaskStateCh) *)\n", capv)
 	fmt.Fprintf(&b, "Definition et_stop_guards_nil : bool := %v. (* ensureBasicTaskKilled tests ProcessState != nil before Exited() *)\n", guard)
+	fmt.Fprintf(&b, "Definition et_transition_checks_dst : bool := %v. (* executorcmd doTransition: success only if reply.GetState() == destination *)\n", checksDst)
 	return b.String()
 }
